@@ -457,8 +457,43 @@ pub fn split_pieces(s: &str, rng: &mut Rng) -> Vec<String> {
     out
 }
 
+/// Messages that are compile-time literals: `record.args().as_str()` is `Some` for them, which is what
+/// `log::info!("literal")` produces (a fast path an encoder might treat specially).
+pub const LITERALS: [&str; 6] = [
+    "a literal message",
+    "",
+    "naïve café → 𝄞",
+    "xxxxxxxxxxxxxxxxxxxxxxxxxxxxxxxxxxxxxxxxxxxxxxxxxxxxxxxxxxxxxxxxxxxxxxxxxxxxxxxxxxxxxxxxxxxxxxxxxxxxxxxxxxxxxxxxxxxxxxxxxxxxxxxxxxxxxxxxxxxxxxxxxxxxxxxxxxxxxxxxxxxxxxxxxxxxxxxxxxxxxxxxxxxxxxxxxxxxxxxxxxxxxxxxxxxxxxxxxxxxxxxxxxxxxxxxxxxxxxxxxxxxxxxxxxxxxxxxxxxxxxxxxxxxxxxxxxxxxxxxxxxxxxxxxxxxxxxxxxxxxxxxxxxxxxxxxxxxxxxxxxxxxxxxxxxxxxxxxxxx end",
+    "{braces} (parens) \\ backslash",
+    "line one\nline two",
+];
+
 /// Builds the `log::Record` for `ctx` and hands it to `f`.
 pub fn with_record<T>(ctx: &RecCtx, pieces: &[String], f: impl FnOnce(&Record) -> T) -> T {
+    macro_rules! lit {
+        ($i:expr) => {
+            return f(&Record::builder()
+                .level(ctx.level)
+                .target(&ctx.target)
+                .module_path(ctx.module.as_deref())
+                .file(ctx.file.as_deref())
+                .line(ctx.line)
+                .args(format_args!($i))
+                .build())
+        };
+    }
+    // a single piece equal to one of the literals is passed as a real literal
+    if pieces.len() == 1 {
+        match LITERALS.iter().position(|l| *l == pieces[0]) {
+            Some(0) => lit!("a literal message"),
+            Some(1) => lit!(""),
+            Some(2) => lit!("naïve café → 𝄞"),
+            Some(3) => lit!("xxxxxxxxxxxxxxxxxxxxxxxxxxxxxxxxxxxxxxxxxxxxxxxxxxxxxxxxxxxxxxxxxxxxxxxxxxxxxxxxxxxxxxxxxxxxxxxxxxxxxxxxxxxxxxxxxxxxxxxxxxxxxxxxxxxxxxxxxxxxxxxxxxxxxxxxxxxxxxxxxxxxxxxxxxxxxxxxxxxxxxxxxxxxxxxxxxxxxxxxxxxxxxxxxxxxxxxxxxxxxxxxxxxxxxxxxxxxxxxxxxxxxxxxxxxxxxxxxxxxxxxxxxxxxxxxxxxxxxxxxxxxxxxxxxxxxxxxxxxxxxxxxxxxxxxxxxxxxxxxxxxxxxxxxxxxxxxxxxxx end"),
+            Some(4) => lit!("{{braces}} (parens) \\ backslash"),
+            Some(5) => lit!("line one\nline two"),
+            _ => {}
+        }
+    }
     let p = Pieces(pieces);
     f(&Record::builder()
         .level(ctx.level)
@@ -600,7 +635,10 @@ pub fn gen_ctx(rng: &mut Rng, mdc_keys: &[String]) -> RecCtx {
         }
     }
     let mut message = gen_text(rng, 5);
-    if rng.chance(1, 25) {
+    if rng.chance(1, 10) {
+        // a compile-time literal (see `with_record`)
+        message = (*rng.pick(&LITERALS[..])).to_owned();
+    } else if rng.chance(1, 25) {
         // long text: crosses the buffers of any intermediate writer
         let len = *rng.pick(&[255usize, 256, 257, 1023, 1024, 1025, 5000]);
         let c = *rng.pick(&['m', 'é', '𝄞']);
